@@ -10,7 +10,7 @@ import GB.C05.Pipeline
              kind  = get|put|post|delete|patch|none|c:<verb>        "-" = empty string
              poll  = <v1 mode>,<v1alpha mode>|<listed hex,…>|<policy text (Go side only)>
              mode  = ok | u… (answers Unimplemented somewhere) | x… (fails with another code)
-  output:  per poll:  poll  S=<v1|v1a>:<ok|eNN>  E=<req>><ans> …  R=<result>
+  output:  per poll:  poll  S=<v1|v1a>:<ok|eNN>  [Z=eof: the ListServices Send returned io.EOF]  E=<req>><ans> …  R=<result>
              req = l | s:<name> | f:<name>      ans = L:<hex,…> | F:<id,…> | G:<id,…> | eNN | rNN | oN
              id  = file name (own file) or @k (k-th alien file)
              result = ok:<file,…>#<svc;…> | none | err:<code>
@@ -159,6 +159,8 @@ structure StreamTr where
   v : Version
   connErr : Option Nat
   events : List Event
+  /-- what the Send of the ListServices request returned (`Z=eof`: io.EOF) -/
+  listSend : SendRes := .ok
 
 structure PollOut where
   streams : List StreamTr
@@ -222,6 +224,10 @@ def parseOutput (inp : Input) (fields : List String) : Except String (List PollO
           | some q', some a', last :: before =>
             cur := some { p with streams := before.reverse ++ [{ last with events := last.events ++ [(q', a')] }] }
           | _, _, _ => throw s!"event {v}"
+        else if k == "Z" then
+          match p.streams.reverse with
+          | last :: before => cur := some { p with streams := before.reverse ++ [{ last with listSend := .eof }] }
+          | [] => throw "Z before S"
         else if k == "R" then cur := some { p with result := v }
         else throw s!"out field {k}"
   if let some p := cur then polls := polls ++ [p]
@@ -272,7 +278,7 @@ def oracleSched (evs : List Event) : Sched := fun h l =>
 
 def endpointOf (p : PollOut) (v : Version) : Endpoint :=
   match p.streams.find? (fun s => s.v == v) with
-  | some s => { connErr := s.connErr, pol := oraclePol s.events, sched := oracleSched s.events }
+  | some s => { connErr := s.connErr, pol := oraclePol s.events, sched := oracleSched s.events, listSend := s.listSend }
   | none => { connErr := some 999, pol := fun _ _ => mismatch, sched := fun _ l => l }
 
 /-- the model's conversation ended with an aborting response -/
@@ -408,7 +414,7 @@ def pipeIds (l : List DFile) : String :=
 
 def pipeShowResult : Except Err (List DFile) → String
   | .ok l => s!"ok:{pipeIds l}"
-  | .error e => s!"err:{e.code}"
+  | .error e => if e.code = Pipe.codeEOF then "err:2:eof" else s!"err:{e.code}"
 
 /-- depth-first search over internal labels for a state satisfying `goal` -/
 def pipeSearch (A : List Answer) (ls : List Pipe.Label) (goal : Pipe.PState → Bool) : Nat → Pipe.PState → Option Pipe.PState
@@ -445,6 +451,7 @@ def pipeEvent (A : List Answer) (s : Pipe.PState) (ev : String) : Except String 
     | none => .error "BAD S+"
   else if k.startsWith "S-" then
     if v == "ok" then step s .reqSend "DIFF Send returned without being called"
+    else if v == "eof" then step s .reqSendEOF "DIFF Send returned io.EOF on a live stream"
     else if v == "ctx" then
       match pipeForceCancel A s with
       | some s' => step s' (.reqSendFault ⟨Pipe.codeCanceled⟩) "DIFF Send returned without being called"
@@ -462,6 +469,7 @@ def pipeEvent (A : List Answer) (s : Pipe.PState) (ev : String) : Except String 
       else step s .rcvTake "VIOL Recv called before the corresponding request was sent (semaphore)"
   else if k == "R-" then
     if v == "eof" then step s .closeRecvRet "DIFF EOF outside close()"
+    else if v.startsWith "st" then step s .rcvStatus "DIFF Recv returned the stream's status out of order"
     else if v == "ctx" then
       match pipeForceCancel A s with
       | some s' => step s' (.rcvFault ⟨Pipe.codeCanceled⟩ true) "DIFF Recv returned without being called"
@@ -507,6 +515,10 @@ def pipeEvent (A : List Answer) (s : Pipe.PState) (ev : String) : Except String 
         match pipeSearch A pipeInternal (fun t => t.mpc = .returned) 12 s with
         | some t => .error s!"DIFF model returns {(t.result.map pipeShowResult).getD "nothing"}"
         | none => .error "VIOL the function returned while a goroutine of it cannot have exited (wg.Wait)"
+  else if k == "X" then
+    match v.toNat? with
+    | some c => step s (.streamEnd c) "DIFF the stream ended twice"
+    | none => .error "BAD X"
   else if ev == "CS" then step s .closeSend "DIFF CloseSend before the call returned"
   else if ev == "CL" then
     let s1 := if s.mpc = .closing1 then Pipe.step true A s .closeSkipRecv else some s
@@ -529,7 +541,10 @@ def handlePipe (inF outF : List String) : String :=
     | [] =>
       if s.mpc = .closed then
         let fault := if s.streamFault then "fault" else "clean"
-        let res := match s.result with | some (.ok _) => "ok" | _ => "err"
+        let res := match s.result with
+          | some (.ok _) => "ok"
+          | some (.error e) => if e.code = Pipe.codeEOF ∧ s.ended.isSome then "eofmask" else "err"
+          | none => "err"
         "OK" ++ (if A.length ≥ 2 then " nt" else "") ++ s!" b=pipe-{res}-{fault}"
       else "DIFF the log ends before close() finished"
     | ev :: rest =>
